@@ -348,6 +348,14 @@ class FakeSocket:
         self.sendall(data)
         return len(data)
 
+    def sendmsg(self, buffers, ancdata=(), flags=0, address=None):
+        """a gathered write: like send(), it may take only part of what it is given and says how much (here: at most
+        net.sendmsg_limit bytes, 64 unless set) - a caller has to go on with the rest"""
+        data = b"".join(bytes(b) for b in buffers)
+        part = data[:getattr(self.net, "sendmsg_limit", 64)]
+        self.sendall(part)
+        return len(part)
+
     def _deliver(self, data, max_commands):
         net = self.net
         replies = self.peer.feed(data, max_commands)
